@@ -145,7 +145,8 @@ static void run_res(const std::vector<Tok> &t, Out &o)
 }
 
 // ---------------------------------------------------------------- providers
-struct Seen { const res::Resource *ptr = nullptr; bool have = false; };
+// what one exporter / reader callback invocation saw
+struct Seen { const res::Resource *ptr = nullptr; bool have = false; bool has_data = true; int calls = 0; };
 static Seen g_seen;
 
 class SpanExp final : public sdktrace::SpanExporter
@@ -185,9 +186,11 @@ public:
 class Reader final : public sdkmet::MetricReader
 {
 public:
-  sdkmet::AggregationTemporality GetAggregationTemporality(sdkmet::InstrumentType) const noexcept override { return sdkmet::AggregationTemporality::kCumulative; }
+  explicit Reader(sdkmet::AggregationTemporality t) : t_(t) {}
+  sdkmet::AggregationTemporality GetAggregationTemporality(sdkmet::InstrumentType) const noexcept override { return t_; }
   bool OnForceFlush(std::chrono::microseconds) noexcept override { return true; }
   bool OnShutDown(std::chrono::microseconds) noexcept override { return true; }
+  sdkmet::AggregationTemporality t_;
 };
 
 struct Triple
@@ -195,10 +198,16 @@ struct Triple
   std::shared_ptr<sdktrace::TracerProvider> tp;
   std::shared_ptr<sdklogs::LoggerProvider> lp;
   std::shared_ptr<sdkmet::MeterProvider> mp;
-  std::shared_ptr<Reader> reader;
+  std::shared_ptr<Reader> reader;    // cumulative
+  std::shared_ptr<Reader> dreader;   // delta
+  nostd::shared_ptr<opentelemetry::metrics::Meter> meter;
+  nostd::unique_ptr<opentelemetry::metrics::Counter<uint64_t>> counter;   // created once (one instrument per provider)
+  void need_meter() { if (!meter) meter = mp->GetMeter("verif"); }
+  void need_counter() { need_meter(); if (!counter) counter = meter->CreateUInt64Counter("c18_counter"); }
 };
 
-// PROV ; N schema k t v ... ; ... ; E (s|l|m) i ; ...
+
+// PROV ; N schema k t v ... ; ... ; op ; ...     op = E (s|l|m) i | G i | I i | A i | K i | D i
 static void run_prov(const std::vector<Tok> &t, Out &o)
 {
   auto ops = verif::split_toks(t, ";", 1);
@@ -207,7 +216,8 @@ static void run_prov(const std::vector<Tok> &t, Out &o)
   for (size_t n = 1; n < ops.size(); n++)
   {
     auto &op = ops[n];
-    if (!op.empty() && op[0].is_tag("N"))
+    if (op.empty()) continue;
+    if (op[0].is_tag("N"))
     {
       // the caller's resource object dies right after construction: the providers must hold their own
       std::unique_ptr<res::Resource> r(new res::Resource(plain(op)));
@@ -215,51 +225,67 @@ static void run_prov(const std::vector<Tok> &t, Out &o)
       p.tp.reset(new sdktrace::TracerProvider(std::unique_ptr<sdktrace::SpanProcessor>(new sdktrace::SimpleSpanProcessor(std::unique_ptr<sdktrace::SpanExporter>(new SpanExp))), *r));
       p.lp.reset(new sdklogs::LoggerProvider(std::unique_ptr<sdklogs::LogRecordProcessor>(new sdklogs::SimpleLogRecordProcessor(std::unique_ptr<sdklogs::LogRecordExporter>(new LogExp))), *r));
       p.mp.reset(new sdkmet::MeterProvider(std::unique_ptr<sdkmet::ViewRegistry>(new sdkmet::ViewRegistry()), *r));
-      p.reader.reset(new Reader);
+      p.reader.reset(new Reader(sdkmet::AggregationTemporality::kCumulative));
+      p.dreader.reset(new Reader(sdkmet::AggregationTemporality::kDelta));
       p.mp->AddMetricReader(p.reader);
+      p.mp->AddMetricReader(p.dreader);
       r.reset();
-      ps.push_back(p);
+      ps.push_back(std::move(p));
+      continue;
     }
-    else if (!op.empty() && op[0].is_tag("E") && op.size() == 3)
+    const bool is_e = op[0].is_tag("E") && op.size() == 3;
+    const bool is_short = op.size() == 2 && (op[0].is_tag("G") || op[0].is_tag("I") || op[0].is_tag("A") || op[0].is_tag("K") || op[0].is_tag("D"));
+    if (!is_e && !is_short) continue;
+    size_t i = (is_e ? op[2] : op[1]).as_ull();
+    char kind = is_e ? op[1].s[0] : 0;                                   // 's' 'l' 'm'
+    bool observes = is_e || op[0].is_tag("K") || op[0].is_tag("D");
+    if (i >= ps.size())
     {
-      if (!first) o.tag(";");
-      first = false;
-      size_t i = op[2].as_ull();
-      if (i >= ps.size()) { o.tag("NOPROVIDER"); continue; }
-      g_seen = Seen();
-      const res::Resource *own = nullptr;
-      if (op[1].is_tag("s"))
-      {
-        auto tr = ps[i].tp->GetTracer("verif");
-        tr->StartSpan("x")->End();
-        own = &ps[i].tp->GetResource();
-      }
-      else if (op[1].is_tag("l"))
-      {
-        auto lg = ps[i].lp->GetLogger("verif", "lib");
-        lg->EmitLogRecord(opentelemetry::logs::Severity::kInfo, "body");
-        own = &ps[i].lp->GetResource();
-      }
-      else
-      {
-        auto m = ps[i].mp->GetMeter("verif");
-        auto c = m->CreateUInt64Counter("c18_counter");
-        c->Add(1);
-        ps[i].reader->Collect([&](sdkmet::ResourceMetrics &rm) { g_seen.ptr = rm.resource_; g_seen.have = true; return true; });
-        own = &ps[i].mp->GetResource();
-      }
-      if (!g_seen.have || g_seen.ptr == nullptr) { o.tag("NOTHING"); continue; }
-      // which provider's resource object is referenced?
-      long long ref = -1;
-      for (size_t k = 0; k < ps.size(); k++)
-      {
-        const res::Resource *cand = op[1].is_tag("s") ? &ps[k].tp->GetResource() : op[1].is_tag("l") ? &ps[k].lp->GetResource() : &ps[k].mp->GetResource();
-        if (cand == g_seen.ptr) ref = static_cast<long long>(k);
-      }
-      (void)own;
-      o.num(ref);
-      if (ref >= 0) dump(*g_seen.ptr, o);
+      if (observes) { if (!first) o.tag(";"); first = false; o.tag("NOPROVIDER"); }
+      continue;
     }
+    Triple &p = ps[i];
+    if (op[0].is_tag("G")) { p.need_meter(); continue; }
+    if (op[0].is_tag("I")) { p.need_counter(); continue; }
+    if (op[0].is_tag("A") || (is_e && kind == 'm')) { p.need_counter(); p.counter->Add(1); if (!is_e) continue; }
+    if (!first) o.tag(";");
+    first = false;
+    g_seen = Seen();
+    char sig = 'm';
+    if (is_e && kind == 's')
+    {
+      sig = 's';
+      p.tp->GetTracer("verif")->StartSpan("x")->End();
+    }
+    else if (is_e && kind == 'l')
+    {
+      sig = 'l';
+      p.lp->GetLogger("verif", "lib")->EmitLogRecord(opentelemetry::logs::Severity::kInfo, "body");
+    }
+    else
+    {
+      Reader &rd = op[0].is_tag("D") ? *p.dreader : *p.reader;
+      // every invocation of the callback is looked at, batches without data included
+      rd.Collect([&](sdkmet::ResourceMetrics &rm) {
+        g_seen.calls++;
+        g_seen.ptr      = rm.resource_;
+        g_seen.have     = true;
+        g_seen.has_data = !rm.scope_metric_data_.empty();
+        return true;
+      });
+    }
+    if (!g_seen.have) { o.tag("NOTHING"); continue; }
+    o.tag(g_seen.has_data ? "d" : "e");
+    if (g_seen.ptr == nullptr) { o.tag("NULLRES"); continue; }   // never dereferenced
+    // which provider's resource object is referenced?
+    long long ref = -1;
+    for (size_t k = 0; k < ps.size(); k++)
+    {
+      const res::Resource *cand = sig == 's' ? &ps[k].tp->GetResource() : sig == 'l' ? &ps[k].lp->GetResource() : &ps[k].mp->GetResource();
+      if (cand == g_seen.ptr) ref = static_cast<long long>(k);
+    }
+    o.num(ref);
+    if (ref >= 0) dump(*g_seen.ptr, o);
   }
   if (first) o.tag("EMPTY");
 }
